@@ -135,6 +135,9 @@ class Inputs:
         k = max(2, min(4, self.size // 4))
         return f[1:1 + k, 2:2 + k].copy()
 
+    def _mk_bc3(self):
+        return self._np.array([[0, 1, 0], [1, 1, 1], [0, 1, 1]], self._np.uint8)
+
     def _mk_hm(self):
         return self._np.array([[0, 1, 2], [1, 1, 1], [2, 1, 0]], self._np.uint8)
 
@@ -157,6 +160,8 @@ def _kernels():
     g = lambda I, n: I.get(n)
     reg('erode', ['b'], lambda I: mh.erode(g(I, 'b')))
     reg('erode_u8', ['f'], lambda I: mh.erode(g(I, 'f')))
+    # the structuring element itself is an input shared by the concurrent calls
+    reg('erode_shared_bc', ['f', 'bc3'], lambda I: mh.erode(g(I, 'f'), g(I, 'bc3')))
     reg('dilate', ['f'], lambda I: mh.dilate(g(I, 'f')))
     reg('dilate_b', ['b'], lambda I: mh.dilate(g(I, 'b'), np.ones((3, 3), bool)))
     reg('open', ['b'], lambda I: mh.open(g(I, 'b')))
@@ -253,7 +258,7 @@ RAISING = ['raise_cooccurence_negative', 'raise_native_convolve_mode', 'raise_na
 IN_KERNEL_RAISING = RAISING[:3]
 NATIVE_PROBES = ['native_center_of_mass', 'native_convexhull']
 # kernels drawn for random mixes (names only: the registry itself lives in the child)
-REGULAR = ['erode', 'erode_u8', 'dilate', 'dilate_b', 'open', 'close', 'cwatershed', 'cwatershed_lines', 'hitmiss',
+REGULAR = ['erode', 'erode_u8', 'erode_shared_bc', 'dilate', 'dilate_b', 'open', 'close', 'cwatershed', 'cwatershed_lines', 'hitmiss',
            'majority_filter', 'locmax', 'regmax', 'regmin', 'close_holes', 'distance', 'thin', 'bwperim', 'borders',
            'border', 'label', 'labeled_sum', 'labeled_max', 'labeled_size', 'bbox', 'labeled_bbox', 'relabel',
            'remove_bordering', 'remove_regions', 'is_same_labeling', 'perimeter', 'convolve', 'convolve_u8',
@@ -265,7 +270,7 @@ REGULAR = ['erode', 'erode_u8', 'dilate', 'dilate_b', 'open', 'close', 'cwatersh
 FAMILY = {}
 for _k in REGULAR + RAISING + NATIVE_PROBES:
     FAMILY[_k] = ('raising' if _k.startswith('raise_') else
-                  'morphology' if _k in ('erode', 'erode_u8', 'dilate', 'dilate_b', 'open', 'close', 'hitmiss',
+                  'morphology' if _k in ('erode', 'erode_u8', 'erode_shared_bc', 'dilate', 'dilate_b', 'open', 'close', 'hitmiss',
                                          'majority_filter', 'locmax', 'regmax', 'regmin', 'close_holes', 'thin',
                                          'bwperim', 'euler') else
                   'watershed' if _k.startswith('cwatershed') else
@@ -406,6 +411,7 @@ def run_stress(case):
                 I.get(u)
     gc.collect()
     refc0 = [{k: sys.getrefcount(v) for k, v in I.arrays().items()} for I in ref_inputs] if shared else None
+    magic0 = sys.getrefcount(mh.labeled._perimeter_magic)    # module-level array every perimeter() call passes to convolve
     rounds = int(case.get('rounds', 1))
     results = [[None] * (rounds * reps * len(calls)) for _ in range(nthreads)]
     started = [0]
@@ -499,6 +505,14 @@ def run_stress(case):
                                 note='sys.getrefcount of a shared input changed across the concurrent run '
                                      '(single-threaded runs leave it unchanged): Py_INCREF/Py_DECREF executed '
                                      'without the interpreter lock')))
+    if any(c[0] == 'perimeter' for c in calls):
+        gc.collect()
+        d = sys.getrefcount(mh.labeled._perimeter_magic) - magic0
+        if d != 0:
+            findings.append(dict(kind='property', key='refcount-race:perimeter', detail=dict(
+                array='mahotas.labeled._perimeter_magic', refcount_before=magic0, refcount_after=magic0 + d,
+                threads=nthreads, note='module-level weights array shared by all concurrent perimeter() calls: its '
+                'reference count is changed by filter_iterator without the interpreter lock')))
     fams = sorted({FAMILY.get(c[0], 'other') for c in calls})
     tags = dict(kind='stress', threads=nthreads, shared=('shared-ro' if shared and all(ro_flags) else
                                                          'shared-mixed' if shared else 'distinct'),
@@ -559,20 +573,20 @@ def _eval_stress(cases):
         return res
     out = list(res)
     bad = cases[len(res)]
-    # the case after the last reported result killed the child: confirm in isolation
+    # the case after the last reported result killed the child (or hung it): the finding is keyed by its mix;
+    # a concurrency crash is probabilistic, so the isolated re-run only adds information
     rc1, res1, err1 = _run_child([bad], float(bad.get('timeout', 300)) + 60)
+    if rc == 1 and 'Infra' in err:
+        raise core.Infra(err[-2000:])
+    names = '+'.join(sorted({c[0] for c in bad['calls']}))
+    f = dict(kind='property', key='crash:' + names, detail=dict(
+        returncode=str(rc), stderr=err[-1500:], reproduced_alone=not (rc1 == 0 and len(res1) == 1),
+        note='the child process died (signal / timeout) while running this case'))
     if rc1 == 0 and len(res1) == 1:
-        # not reproducible alone: report the crash of the batch with the first stderr lines
-        res1[0]['findings'].append(dict(kind='property', key='crash:batch', detail=dict(
-            returncode=str(rc), stderr=err[-1500:], note='child process died during this case, alone it passed')))
+        res1[0]['findings'].append(f)
         out.append(res1[0])
     else:
-        if rc1 == 1 and 'Infra' in err1:
-            raise core.Infra(err1[-2000:])
-        names = '+'.join(sorted({c[0] for c in bad['calls']}))
-        out.append(dict(findings=[dict(kind='property', key='crash:' + names, detail=dict(
-            returncode=str(rc1), stderr=(err1 or err)[-1500:]))], nontrivial=False, sig=None,
-            tags=dict(kind='stress', outcome='crash')))
+        out.append(dict(findings=[f], nontrivial=False, sig=None, tags=dict(kind='stress', outcome='crash')))
     return out + _eval_stress(cases[len(out):])
 
 
@@ -780,10 +794,18 @@ def _eval_sites(case):
                      ','.join(SITE_KERNELS.get(s['func'], ['?'])))))
         if (s['wraps'] == 0) != ok and not s['interp_calls']:
             findings.append(dict(kind='model', key='site-skeleton-disagreement:' + where, detail=dict(site=s, d0=d0, d1=d1)))
+    hw = [s for s in sites if s.get('helper_wraps')]
+    if hw:
+        findings.append(dict(kind='property', key='refcount-unlocked:_filters.h:filter_iterator', detail=dict(
+            kernels=[f"{s['file'].split('/')[-1]}:{s['func']}" for s in hw],
+            note='the constructor of filter_iterator builds numpy::aligned_array<T> filter_array(filter) and these kernels '
+                 'construct a filter_iterator after gil_release: Py_INCREF/Py_XDECREF of the structuring element / '
+                 'weights array without the interpreter lock (shared Bc, or mahotas.labeled._perimeter_magic)')))
     by = {k: sum(1 for s in sites if s['idiom'] == k) for k in 'abc'}
     return dict(findings=findings, n=len(lines), nontrivial_n=len(sites), nontrivial=False, sig=None,
                 tags=dict(kind='sites', idiom_a=by['a'], idiom_b=by['b'], idiom_c=by['c'],
-                          uncaught_a=sum(1 for s in sites if s['idiom'] == 'a' and not s['caught'])))
+                          uncaught_a=sum(1 for s in sites if s['idiom'] == 'a' and not s['caught']),
+                          helper_wrapper_sites=len(hw)))
 
 
 def evaluate(cases):
@@ -832,10 +854,10 @@ def cases(rng, tier):
         out.append(dict(kind='model', seed=rng.randint(0, 2 ** 31), nsched=dict(quick=60, thorough=200, search=100)[tier]))
     if tier == 'quick':
         thread_counts = [2, rng.choice([3, 4, 6, 8]), rng.choice([12, 16, 24, 32])]
-        nmix, reps = 8, 5
+        nmix, reps = 16, 5
     elif tier == 'thorough':
         thread_counts = [2, 3, 4, 8, 16, 32]
-        nmix, reps = 40, 12
+        nmix, reps = 150, 30
     else:
         thread_counts = [2, 4, 8, 16, 32]
         nmix, reps = 20, 8
@@ -867,18 +889,19 @@ def cases(rng, tier):
 
 
 def shrink(case):
+    """smaller candidates; a concurrency failure is probabilistic, so every candidate is repeated (rounds)
+    to keep the chance of reproducing it high"""
     if case.get('kind') != 'stress':
         return
     calls = case['calls']
+    base = dict(case, rounds=max(int(case.get('rounds', 1)), 6))
     if len(calls) > 1:
         for i in range(len(calls)):
-            yield dict(case, calls=calls[:i] + calls[i + 1:])
-    if case['threads'] > 2:
-        yield dict(case, threads=max(2, case['threads'] // 2))
+            yield dict(base, calls=calls[:i] + calls[i + 1:])
+    if case['threads'] > 4:
+        yield dict(base, threads=max(4, case['threads'] // 2))
     if any(c[2] > 8 for c in calls):
-        yield dict(case, calls=[[c[0], c[1], max(8, c[2] // 2)] for c in calls])
-    if case.get('switch'):
-        yield dict(case, switch=None)
+        yield dict(base, calls=[[c[0], c[1], max(8, c[2] // 2)] for c in calls])
 
 
 if __name__ == '__main__':
